@@ -153,6 +153,34 @@ def run(ctx):
                                       for a in assignments_to(ev, norm(last))) if isinstance(last, ast.Name) else (last is not None and "_resolve_params" in norm(last))
         c.ob("R8", bool(ok), ev, "guard-gets-resolved-params", "the guard implementation is called with guard.params resolved through _resolve_params" if ok else
              "the guard implementation is not handed the (possibly computed) params of the guard", x)
+    # ---- R9 a cache on the interpreter keyed by id(x) must keep x alive ---------------------------
+    # (CPython re-uses the address of a freed object: a config dict built inside a callback and freed after
+    # the call gives its id to the next one, which then hits the previous entry and is decided by the wrong guard)
+    from sa.effects import attr_writes
+    n9 = 0
+    for f in p.funcs_in("base_interpreter", "interpreter", "sync_interpreter"):
+        for w in attr_writes(f):
+            if w.op != "subscript" or w.base != "self" or not isinstance(w.node, ast.Assign):
+                continue
+            key = w.node.targets[0].slice
+            kexprs = [key]
+            if isinstance(key, ast.Name):
+                kexprs += [getattr(a, "value", key) for a in assignments_to(f, key.id) if getattr(a, "value", None) is not None]
+            ids = [y for e in kexprs for y in ast.walk(e) if isinstance(y, ast.Call) and isinstance(y.func, ast.Name) and y.func.id == "id" and y.args]
+            if not ids:
+                continue
+            n9 += 1
+            vexprs = [w.node.value]
+            if isinstance(w.node.value, ast.Name):
+                vexprs += [a.value for a in assignments_to(f, w.node.value.id) if getattr(a, "value", None) is not None]
+            pinned = all(any(isinstance(z, ast.Name) and norm(z) == norm(i.args[0]) for ve in vexprs for z in ast.walk(ve)
+                             if not (isinstance(z, ast.Name) and any(z is a0 for c0 in ast.walk(ve) if isinstance(c0, ast.Call) for a0 in c0.args)))
+                         for i in ids)
+            c.ob("R9", pinned, f, f"id-keyed-cache:{w.attr}",
+                 f"self.{w.attr} is keyed by id(x) and stores x itself, so the address cannot be re-used while the entry lives" if pinned else
+                 f"'{stmt_text(w.node)}' caches under id(...) on the interpreter without keeping the keyed object alive: once that object is freed "
+                 f"its address is re-used by the next one, which is then answered from the stale entry (a different guard's verdict / definition)", w.node)
+    c.ob("R9", True, ev, "id-keyed-caches", f"{n9} interpreter-level caches keyed by id() examined", ev.node, nontrivial=False)
     # ---- R7 choose / enqueueActions.check use the same evaluator ----------------
     cb = p.method("BaseInterpreter", "_collect_builtin_followups")
     n7 = 0
